@@ -295,6 +295,67 @@ func streamConc(c *ctx) {
 	} else {
 		fail("conc", "NewValidator failed", "validator", err, "a validator")
 	}
+	// ---- a validator is independent of the options variable it was built from: the caller goes on to reuse that
+	// variable for another validator while the first one is shared
+	{
+		opts := cwt.ValidatorOpts{ExpectedIssuer: "iss", ExpectedAudience: "aud", FixedNow: now, ClockSkew: time.Second}
+		v1, err := cwt.NewValidator(&opts)
+		if err == nil {
+			ok := &cwt.Claims{Issuer: "iss", Audience: "aud", Expiration: uint64(now.Unix()) + 1000}
+			okm := cwt.ClaimsMap{iana.CWTClaimIss: "iss", iana.CWTClaimAud: "aud", iana.CWTClaimExp: uint64(now.Unix()) + 1000}
+			var once sync.Once
+			par("validator vs. its options variable", func(g, i int) {
+				if g == 0 && i == 3 {
+					once.Do(func() {
+						// (only goroutine 0 writes, once: the caller's own variable, not the validator)
+						opts.ExpectedIssuer, opts.ExpectedAudience = "other", "else"
+						opts.FixedNow = now.Add(48 * time.Hour)
+						cwt.NewValidator(&opts)
+					})
+				}
+				if e1, e2 := v1.Validate(ok), v1.ValidateMap(okm); e1 != nil || e2 != nil {
+					fail("conc", "a shared validator decides differently after the caller reused the options variable it was built from", "validator built from &opts; opts edited afterwards", fmt.Sprint(e1, e2), "accepted, as when run alone")
+				}
+			})
+		}
+	}
+	// ---- a private key whose key_ops is held as the typed key.Ops value, shared: signers keep working while other
+	// goroutines obtain verifiers / public keys from the same key
+	for _, alg := range []int{-7, -35, -8} {
+		k, err := genKeyFor(alg)
+		if err != nil {
+			continue
+		}
+		k[iana.KeyParameterKeyOps] = key.Ops{iana.KeyOperationSign, iana.KeyOperationVerify}
+		before := qMap(k)
+		s, err := k.Signer()
+		if err != nil {
+			fail("conc", "factory failed", fmt.Sprintf("typed key_ops alg=%d", alg), err, "a signer")
+			continue
+		}
+		name := fmt.Sprintf("typed key_ops [sign verify] alg=%d", alg)
+		par(name, func(g, i int) {
+			if i%10 != 0 {
+				return
+			}
+			in := inputs[(g+i)%len(inputs)]
+			if g%2 == 0 {
+				if _, err := s.Sign(in); err != nil {
+					fail("conc", "a shared signer fails while other goroutines derive verifiers from its key", name, err, "a signature")
+				}
+				return
+			}
+			if _, err := k.Verifier(); err != nil {
+				fail("conc", "Key.Verifier failed on a shared key", name, err, "a verifier")
+			}
+			if _, err := k.Signer(); err != nil {
+				fail("conc", "Key.Signer failed on a shared key after verifiers were derived from it", name, err, "a signer")
+			}
+		})
+		if qMap(k) != before {
+			fail("conc", "using a shared key changed it", name, qMap(k), before)
+		}
+	}
 	// ---- message level: one verifier / MACer shared by concurrent VerifySign1Message / VerifyMac0Message calls
 	if k, err := genKeyFor(-8); err == nil {
 		s, _ := k.Signer()
